@@ -75,6 +75,9 @@ def scn(params):
             if side == "cli" and len(t.clients) > 1 and rng.random() < 0.4:
                 to_client = rng.choice([j for j in range(len(t.clients)) if j != ci])
             sizes = tunnelscn.FRAME_SIZES + ([1, 2, 4, 1500, 3000] if rng.random() < 0.3 else [])
+            if rng.random() < 0.25:
+                # beyond every MTU iodine would configure: a tun device hands over whatever it is given
+                sizes = [4091, 4092, 4093, 4096, 4100, 6000, 9000, 20000, 65000]
             fr = tunnelscn.pick_frame(t, rng, side, (params["idx"] << 20) | ident, ci, sizes, to_client)
             k.at(tt, k.offer_tun, "srv" if side == "srv" else t.clients[ci].name, fr, ident)
             ident += 1
